@@ -467,9 +467,9 @@ RuleDegree(ru_) == CASE ru_.name \in {"Trapezoidal", "MidPoint"} -> 1 [] ru_.nam
 MaxNode(ru_) == RuleNodes(ru_)[ru_.n]
 
 \* parameter sets of C04: those of C03 plus, for the b-scaled maps, sets WITHOUT b
-\* (in the thorough tier every third parameter set of the large C03 lattice: the grids multiply
+\* (in the thorough tier every second parameter set of the large C03 lattice: the grids multiply
 \* the work by the number of rules and nodes)
-Thin(s_) == IF Thorough THEN [i_ \in 1..((Len(s_) + 2) \div 3) |-> s_[3 * i_ - 2]] ELSE s_
+Thin(s_) == IF Thorough THEN [i_ \in 1..((Len(s_) + 1) \div 2) |-> s_[2 * i_ - 1]] ELSE s_
 ParamLattice4 == Force([j_ \in 1..NInst |->
     IF Decls[j_].binfer /\ InstSeq[j_].cls = "LinearInfinite" THEN Thin(ParamLattice[j_]) \o Thin(MinMax(RminSeq, SizeSeq))
     ELSE IF InstSeq[j_].cls = "Exp"
